@@ -45,6 +45,7 @@ type HarnessRun struct {
 	Unsupported []string
 	Violations map[string]*Violation
 	Witnesses  map[string]*Witness
+	AltWitnesses map[string][]*Witness // further candidate models per label (other paths)
 	Expected   []string
 	Funcs      map[string]bool
 	SQL        map[string]bool
@@ -399,8 +400,14 @@ func (e *Exec) recordWitnesses() {
 		}
 	}
 	wantSample := len(r.Samples) < 3
+	wantAlt := false
+	for _, l := range e.labels {
+		if _, ok := r.Witnesses[l]; ok && !e.symOnly && len(r.AltWitnesses[l]) < 2 {
+			wantAlt = true
+		}
+	}
 	r.mu.Unlock()
-	if len(need) == 0 && !wantSample {
+	if len(need) == 0 && !wantSample && !wantAlt {
 		return
 	}
 	st, m := e.modelFor(tTrue)
@@ -408,6 +415,14 @@ func (e *Exec) recordWitnesses() {
 		return
 	}
 	r.mu.Lock()
+	for _, l := range e.labels {
+		if _, ok := r.Witnesses[l]; ok && !e.symOnly && len(r.AltWitnesses[l]) < 2 {
+			if r.AltWitnesses == nil {
+				r.AltWitnesses = map[string][]*Witness{}
+			}
+			r.AltWitnesses[l] = append(r.AltWitnesses[l], &Witness{Label: l, Model: m, Trace: append([]int(nil), e.trace...)})
+		}
+	}
 	for _, l := range need {
 		if w, ok := r.Witnesses[l]; !ok || (w.SymOnly && !e.symOnly) {
 			r.Witnesses[l] = &Witness{Label: l, Model: m, Trace: append([]int(nil), e.trace...), SymOnly: e.symOnly}
